@@ -11,6 +11,16 @@ FPS = {'box3': ('box', (3, 3)), 'box2': ('box', (2, 2)), 'box13': ('box', (1, 3)
        'cross': ('fp', np.array([[0, 1, 0], [1, 1, 1], [0, 1, 0]], dtype=bool))}
 
 
+# order-isomorphic embeddings of the integer lattice the specification works on: local maxima and threshold tests depend on the
+# order of the values only, so the expected peak set is the same; near-ties (relative gaps of 1e-7), tiny amplitudes and single
+# precision are where a tolerance-based comparison would differ from the contract
+EMBS = {'id': (lambda v: np.asarray(v, dtype=float), lambda x: x),
+        'near': (lambda v: 100.0 + np.asarray(v, dtype=float) * 1e-5, lambda x: (x - 100.0) / 1e-5),
+        'tiny': (lambda v: np.asarray(v, dtype=float) * 1e-9, lambda x: x / 1e-9),
+        'f32': (lambda v: (1.0 + np.asarray(v, dtype=np.float64) * 2.0 ** -20).astype(np.float32), lambda x: (float(x) - 1.0) * 2.0 ** 20)}
+EMB_NAMES = ['id', 'near', 'tiny', 'f32']
+
+
 def call_find_peaks(data, thr, fpk, mask, border, npeaks=np.inf, fp=None):
     from photutils.detection import find_peaks
     kw = {}
@@ -28,15 +38,18 @@ def call_find_peaks(data, thr, fpk, mask, border, npeaks=np.inf, fp=None):
 
 
 def replay_case(c):
-    d = np.array(c['data'], dtype=float)
+    import zlib
+    emb = EMB_NAMES[zlib.crc32(json.dumps([c['data'], c['fp'], c['border']]).encode()) % 4]
+    f = EMBS[emb][0]
+    d = f(np.array(c['data'], dtype=float))
     m = None
     if c['mask']:
         m = np.zeros(d.shape, dtype=bool)
         for r, q in c['mask']:
             m[r, q] = True
-    sig = {'fp': c['fp'], 'border': c['border'], 'masked': bool(c['mask']), 'thr': c['thr']}
+    sig = {'fp': c['fp'], 'border': c['border'], 'masked': bool(c['mask']), 'thr': c['thr'], 'embedding': emb}
     try:
-        got = call_find_peaks(d, float(c['thr']), c['fp'], m, tuple(c['border']))
+        got = call_find_peaks(d, float(f(c['thr'])), c['fp'], m, tuple(c['border']))
     except Exception as e:  # noqa
         return [('raises', sig, {'case': c, 'exc': repr(e)})]
     exp = [] if c['constant'] else c['peaks']
@@ -81,7 +94,9 @@ def rec_peaks(seed):
     if 2 * border[0] >= h or 2 * border[1] >= w:
         border = [0, 0]
     npeaks = rng.choice([10**6, 10**6, 1, 2, 3])
-    d = np.array(data, dtype=float)
+    emb = EMB_NAMES[seed % 4]
+    f, finv = EMBS[emb]
+    d = f(np.array(data, dtype=float))
     for r, c in nan:
         d[r, c] = np.nan
     m = None
@@ -93,12 +108,12 @@ def rec_peaks(seed):
     with warnings.catch_warnings():
         warnings.simplefilter('ignore')
         kw = {'box_size': (sy, sx)} if use_box else {'footprint': fp}
-        t = find_peaks(d, float(t0) if thr_scalar else np.array(thr, dtype=float), mask=m, border_width=tuple(border) if any(border) else None,
+        t = find_peaks(d, float(f(t0)) if thr_scalar else f(np.array(thr, dtype=float)), mask=m, border_width=tuple(border) if any(border) else None,
                        npeaks=npeaks if npeaks < 10**6 else np.inf, **kw)
     out = [] if t is None else [[int(y), int(x)] for x, y in zip(t['x_peak'], t['y_peak'])]
-    vals = [] if t is None else [int(round(float(v))) for v in t['peak_value']]
+    vals = [] if t is None else [int(round(float(finv(v)))) for v in t['peak_value']]
     ids = [] if t is None else [int(v) for v in t['id']]
-    return {'id': seed, 'kind': 'peaks', 'data': data, 'nan': nan, 'mask': mask, 'thr': thr, 'fp': offs, 'border': border, 'npeaks': npeaks,
+    return {'id': seed, 'kind': 'peaks', 'embedding': emb, 'data': data, 'nan': nan, 'mask': mask, 'thr': thr, 'fp': offs, 'border': border, 'npeaks': npeaks,
             'none': t is None, 'out': out, 'values': vals, 'ids': ids}
 
 
@@ -208,6 +223,15 @@ def rec_star(seed):
         a = sorted([fk(r['xcentroid']), fk(r['ycentroid'])] for r in t if float(r['sharpness']) >= lo2)
         b = sorted([fk(r['xcentroid']), fk(r['ycentroid'])] for r in t2) if t2 is not None else []
         out.append({'id': 100000000 + seed, 'kind': 'pair', 'rel': 'tightening_a_bound_removes_exactly_the_violating_rows', 'a': a, 'b': b})
+    # relation: the same pixel values stored in another dtype (raw detector frames are unsigned) give the same table
+    if seed % 2:
+        di = np.clip(np.rint(data), 0, None)
+        dt = [np.uint16, np.int32, np.uint32, np.int16][(seed // 2) % 4]
+        with warnings.catch_warnings():
+            warnings.simplefilter('ignore')
+            ta, tb = mk(brightest)(di, mask=mask), mk(brightest)(di.astype(dt), mask=mask)
+        pr = lambda tt: sorted([fk(r['xcentroid']) // 4, fk(r['ycentroid']) // 4, fk(r['flux']) // 64] for r in tt) if tt is not None else []  # noqa
+        out.append({'id': 300000000 + seed, 'kind': 'pair', 'rel': 'same_pixel_values_in_another_dtype_give_the_same_sources', 'a': pr(ta), 'b': pr(tb)})
     return out
 
 
